@@ -9,6 +9,8 @@ ops
   setCoords m C*m | setWeights V | setCharges m V*m
   writeCoords i C | writeCharges i V | writeAtom i a V | writeCharge i a x
   read i | slice a b c ('-' = omitted) | dump i | serialise | iterNew | iterNext k | loop | nestedLoop
+  ctorAtomsKw nA nC <coords: - | cs m C*m | c1 C> <charges: - | qs m V*m | q1 V> <weights: - | ws V>
+  readAt i | writeAt i C   (any integer i, negative ones count from the end)
   reload (continue with the ensemble read back from a library) | ctorCopyKw | swap k (the k-th other live ensemble becomes the current one) | iterNextKeep k | loopKeep
   readKept j | writeKept j C | dumpKept j   (conformer objects kept from iterations, used later)
 response: per op  <out>@<nA>,<len coords>,<len charges>,<len weights>,<rect 0|1>  joined by ';', then
@@ -101,6 +103,24 @@ def pRat : P Rat := fun ts => do
   | some r => pure (r, ts1)
   | none => none
 
+/-- `-` | `cs m C*m` (three-dimensional) | `c1 C` (one geometry, two-dimensional) -/
+def pCoordsArg : P (Option (List Conf))
+  | "-" :: ts => some (none, ts)
+  | "cs" :: ts => (pMany pConf ts).map (fun r => (some r.1, r.2))
+  | "c1" :: ts => (pConf ts).map (fun r => (some [r.1], r.2))
+  | _ => none
+
+def pChargesArg : P (Option (List (List Num)))
+  | "-" :: ts => some (none, ts)
+  | "qs" :: ts => (pMany pVec ts).map (fun r => (some r.1, r.2))
+  | "q1" :: ts => (pVec ts).map (fun r => (some [r.1], r.2))
+  | _ => none
+
+def pWeightsArg : P (Option (List Num))
+  | "-" :: ts => some (none, ts)
+  | "ws" :: ts => (pVec ts).map (fun r => (some r.1, r.2))
+  | _ => none
+
 def parseOp (s : String) : Option Op :=
   match words s with
   | "ctorAtoms" :: ts => do let (a, t1) ← pNat ts; let (b, t2) ← pNat t1; if t2.isEmpty then pure (.ctorAtoms a b) else none
@@ -140,6 +160,24 @@ def parseOp (s : String) : Option Op :=
   | ["nestedLoop"] => some .nestedLoop
   | ["ctorCopyKw"] => some .ctorCopyKw
   | ["reload"] => some .reload
+  | "readAt" :: ts => do
+      let (i, t1) ← pOptInt ts
+      match i, t1 with
+      | some i, [] => pure (.readAt i)
+      | _, _ => none
+  | "writeAt" :: ts => do
+      let (i, t1) ← pOptInt ts
+      let (c, t2) ← pConf t1
+      match i, t2 with
+      | some i, [] => pure (.writeAt i c)
+      | _, _ => none
+  | "ctorAtomsKw" :: ts => do
+      let (nA, t1) ← pNat ts
+      let (nC, t2) ← pNat t1
+      let (cs, t3) ← pCoordsArg t2
+      let (qs, t4) ← pChargesArg t3
+      let (ws, t5) ← pWeightsArg t4
+      if t5.isEmpty then pure (.ctorAtomsKw nA nC cs qs ws) else none
   | ["loopKeep"] => some .loopKeep
   | "swap" :: ts => do let (k, t1) ← pNat ts; if t1.isEmpty then pure (.swap k) else none
   | "iterNextKeep" :: ts => do let (k, t1) ← pNat ts; if t1.isEmpty then pure (.iterNextKeep k) else none
